@@ -30,7 +30,7 @@ CHECKS = {
         ref="6/C01", technique="TLA+ heap model of copy/effect sharing (PT_Sharing) explored by TLC with measured tables; call trees replayed on the code; TLC trace judge (J_Frozen)"),
     "C08": dict(
         text="PT_Dialect gives the convention table Conv[d] (identifier quote, placeholder style and numbering, boolean / array / interval forms, set-operand "
-             "bracketing, row-limiting vocabulary), Broken(toks, d) = the conventions a token stream breaks, and Norm (conventions erased). TLC enumerates 11 "
+             "bracketing, row-limiting vocabulary), Broken(toks, d) = the conventions a token stream breaks, and Norm (conventions erased). TLC enumerates 13 "
              "dialect-sensitive elements (incl. backslash strings and JSON documents: the escape convention) x 14 nesting constructs (incl. a select as function argument in the select list / in ORDER BY, as comparison operand, as CASE result) at depth 1 and 2; each program is rendered under the six dialect classes twice - natively built, and "
              "with the inner parts built by the generic classes - and J_C08 (TLC) requires: no convention broken at any depth, mixed-built = natively built token "
              "streams, and Norm-equality over all ordered dialect pairs for the neutral subset.",
